@@ -9,6 +9,7 @@ open Pat_model
 
 let rec pos_of_int n = if n = 1 then XH else if n land 1 = 0 then XO (pos_of_int (n lsr 1)) else XI (pos_of_int (n lsr 1))
 let n_of_int n = if n = 0 then N0 else Npos (pos_of_int n)
+let rec int_of_nat = function O -> 0 | S n -> 1 + int_of_nat n
 let rec int_of_pos = function XH -> 1 | XO p -> 2 * int_of_pos p | XI p -> 2 * int_of_pos p + 1
 let int_of_n = function N0 -> 0 | Npos p -> int_of_pos p
 
@@ -81,6 +82,31 @@ let () =
             let tmp = set_negate tmp (ng = "1") in
             st := sm_assign ere_engine !st tmp; sup := s_ok;
             add (Printf.sprintf "as=%s" (show_flags !sup !st))
+        | ["sg"; h; si; pre; hs; m] ->
+            (* SegmentedStringMatcher g(p, simple, "/"); g.Match(subject, prefixOk) *)
+            let p = str_of_hex h and simple = (si = "1") in
+            let s_ok = seg_supported p simple in
+            Buffer.add_char marks (if s_ok then 'S' else 'U');
+            if classify then Buffer.add_char gram 'n';
+            if not classify && (m <> (if s_ok then "S" else "U")) then bad_marker := true;
+            if not s_ok then add "sg=U" else begin
+              let (g, ok) = seg_set_pattern ere_engine p simple in
+              add (Printf.sprintf "sg=%s,n%s,q%s,k%d,m%s" (if ok then "ok" else "err") (b01 g.g_negate) (b01 (seg_unique g))
+                     (List.length g.g_segs) (b01 (seg_match g (str_of_hex hs) (pre = "1"))))
+            end
+        | ["pm"; h; hs; m] ->
+            (* PathMatcher pm; pm.PutPathString(p); pm.MatchesPath(subject) *)
+            let p = str_of_hex h in
+            let s_ok = path_supported p in
+            Buffer.add_char marks (if s_ok then 'S' else 'U');
+            if classify then Buffer.add_char gram 'n';
+            if not classify && (m <> (if s_ok then "S" else "U")) then bad_marker := true;
+            let d = int_of_nat (path_depth (str_of_hex hs)) in
+            if not s_ok then add "pm=U" else begin
+              match path_put ere_engine p with
+              | Some ms -> add (Printf.sprintf "pm=ok,k%d,d%d,m%s" (List.length ms) d (b01 (path_matches ms (str_of_hex hs))))
+              | None -> add (Printf.sprintf "pm=err,k0,d%d,m0" d)
+            end
         | ["ng"; b] -> st := set_negate !st (b = "1"); add (Printf.sprintf "ng=%s" (show_flags !sup !st))
         | ["rs"] -> st := sm_reset !st; sup := true; add (Printf.sprintf "rs=%s" (show_flags !sup !st))
         | ["m"; h] ->
